@@ -6,7 +6,7 @@ usage: seeds_par.py [bandcheck binary] [N]"""
 import json, os, subprocess, sys, glob, tempfile, shutil, threading, queue
 os.chdir('/verif')
 BIN = sys.argv[1] if len(sys.argv) > 1 else 'bin/bandcheck'
-N = int(sys.argv[2]) if len(sys.argv) > 2 else 8
+N = int(sys.argv[2]) if len(sys.argv) > 2 else 4
 env0 = dict(os.environ, BANDCHECK_LOADALL='1', GOFLAGS='-mod=mod', GOPROXY='off', GOSUMDB='off', GOTOOLCHAIN='local')
 env0.pop('GOWORK', None)
 root = '/tmp/seedwt'
@@ -47,6 +47,11 @@ def work(wt):
         subprocess.run(['git', '-C', wt, 'checkout', '-q', '--', '.'])
         subprocess.run(['git', '-C', wt, 'clean', '-fdq'])
         keys = [l.split('key=', 1)[1].strip() for l in out.splitlines() if l.strip().startswith('rule=') and 'key=' in l]
+        if f'{prop} tier=quick' not in out:  # the analysis process did not finish (killed?): not a verdict
+            with lock:
+                rows[sid] = (sid, prop, 'ERROR (analysis did not complete)', [])
+                print(sid, 'ERROR', flush=True)
+            continue
         meta['detected_by'] = {'own_property_check': bool(keys), 'rule_instances': {prop: keys} if keys else {}}
         json.dump(meta, open(f'{d}/meta.json', 'w'), indent=1)
         with lock:
